@@ -929,6 +929,28 @@ def ubsan_replay(ctx):
     return res
 
 
+def replay(ctx, rp):
+    """./check C17 --replay <file>: re-run the recorded op on a freshly built harness (and on the model) and re-evaluate
+    the defining equation; exit 1 iff the real code still violates it"""
+    op = (rp.get("replay") or {}).get("op")
+    print(json.dumps(rp, indent=1)[:3000])
+    if not op:
+        return 0
+    b = ctx.build_repo("ref")
+    lvl = (rp.get("replay") or {}).get("level", 1)
+    exe = ctx.cc_harness(HARNESS, os.path.join(ctx.tmp, "drv_int"), lvl, build=b)
+    ctx.lake(["driver"])
+    rc, cout, cerr = vlib.run_c([exe], [op])
+    mout = ctx.driver([op.lstrip("!")])
+    c = cout[0] if cout else "<no output rc=%d %s>" % (rc, cerr[-300:])
+    verdict = oracle(op, c)
+    print("REPLAY op:    %s" % op[:400])
+    print("REPLAY impl:  %s" % c[:400])
+    print("REPLAY model: %s" % (mout[0] if mout else "<none>")[:400])
+    print("REPLAY oracle: %s" % (verdict[1] if verdict else "defining equation satisfied"))
+    return 1 if verdict else 0
+
+
 def run(ctx):
     ctx.trusted += ["GMP (mpz_*) is MODELLED as exact Int arithmetic with its documented conventions (tdiv/fdiv/mod, gcdext normalisation, invert, powm, get_si, sizeinbase, jacobi for prime modulus = Euler criterion); not verified",
                     "hand models lean/SqiModel/{Intbig,NumberTheory,Kernels}.lean tied to the C by tools/harness/drv_int.c + tools/props/c17.py (correspondence on every run)",
